@@ -119,6 +119,7 @@ class Engine(object):
         for a in self.axioms:
             self.solver.add(a)
         self.trig_args = set()
+        self.trig_terms = {}
         self.choice_trace = []
         self.interp.reset_path()
         self.symbols = {}
@@ -287,6 +288,7 @@ class Engine(object):
         key = str(x.t)
         if key not in self.trig_args:
             self.trig_args.add(key)
+            self.trig_terms[key] = x.t
             c, s = ufun("cos")(x.t), ufun("sin")(x.t)
             self.axiom(c * c + s * s == 1)
             self.axiom(z3.And(c >= -1, c <= 1, s >= -1, s <= 1))
@@ -318,56 +320,139 @@ def _mk_goal(vc):
     return list(vc.pc) + [z3.Not(vc.cond)]
 
 
+def _in_child(fn, hard_timeout_s):
+    """run fn() in a forked child with a hard wall-clock limit; returns fn's JSON-able result or None"""
+    import os
+    import select
+    import json
+    import signal
+
+    r, w = os.pipe()
+    pid = os.fork()
+    if pid == 0:
+        try:
+            os.close(r)
+            try:
+                res = fn()
+            except BaseException as e:  # noqa
+                res = ["error", "%s: %s" % (type(e).__name__, e), None]
+            data = json.dumps(res, default=str).encode()
+            with os.fdopen(w, "wb") as f:
+                f.write(data)
+        finally:
+            os._exit(0)
+    os.close(w)
+    out = b""
+    deadline = time.time() + hard_timeout_s
+    try:
+        while True:
+            left = deadline - time.time()
+            if left <= 0:
+                break
+            rd, _, _ = select.select([r], [], [], min(left, 1.0))
+            if rd:
+                chunk = os.read(r, 1 << 16)
+                if not chunk:
+                    break
+                out += chunk
+        else:
+            pass
+    finally:
+        os.close(r)
+        try:
+            os.kill(pid, signal.SIGKILL)
+        except ProcessLookupError:
+            pass
+        try:
+            os.waitpid(pid, 0)
+        except ChildProcessError:
+            pass
+    if not out:
+        return None
+    try:
+        return json.loads(out.decode())
+    except ValueError:
+        return None
+
+
+def _z3_attempt(goal, mk, timeout_ms, want_model):
+    def run():
+        s = mk()
+        s.set("timeout", int(timeout_ms))
+        for g in goal:
+            s.add(g)
+        r = s.check()
+        if r == z3.sat and want_model:
+            return [str(r), None, _model_dict(s.model())]
+        return [str(r), None, None]
+
+    res = _in_child(run, timeout_ms / 1000.0 + 2.0)
+    if res is None:
+        return "unknown", None
+    if res[0] == "error":
+        return "error:" + str(res[1]), None
+    return res[0], res[2]
+
+
 def solve_vc(vc, timeout_ms=20000, want_model=True):
-    """returns (status, backend, seconds, model_dict_or_None, detail)"""
+    """returns (status, backend, seconds, model_dict_or_None, attempts)"""
     goal = _mk_goal(vc)
     t0 = time.time()
     attempts = []
-    # 1. default solver (handles mixed theories, quantifier-free most of the time)
-    budgets = [min(timeout_ms, 3000), timeout_ms]
-    for tname, mk in (("z3", lambda: z3.Solver()), ("z3-nlsat", lambda: z3.Tactic("qfnra-nlsat").solver()),
-                      ("z3-smt", lambda: z3.SolverFor("QF_NRA"))):
-        if tname == "z3-nlsat" and _has_uf_or_int(goal):
-            continue
-        if tname == "z3-smt" and _has_uf_or_int(goal):
-            continue
-        s = mk()
-        s.set("timeout", budgets[0] if tname == "z3" else budgets[1])
-        try:
-            for g in goal:
-                s.add(g)
-            r = s.check()
-        except z3.Z3Exception as e:
-            attempts.append((tname, "error:%s" % e))
-            continue
-        attempts.append((tname, str(r)))
-        if r == z3.unsat:
+    has_uf = _has_uf_or_int(goal)
+    has_int = _has_int(goal)
+    quick = ("z3", lambda: z3.Solver(), goal, True, min(1200, timeout_ms))
+    if not has_uf:
+        plan = [quick, ("z3-nlsat", lambda: z3.Tactic("qfnra-nlsat").solver(), goal, True, timeout_ms)]
+    elif not has_int:
+        from . import backends
+
+        g2 = backends.ackermannize(goal)
+        plan = [("z3-nlsat-ack", lambda: z3.Tactic("qfnra-nlsat").solver(), g2, False, min(4000, timeout_ms)), quick,
+                ("z3-nlsat-ack", lambda: z3.Tactic("qfnra-nlsat").solver(), g2, False, timeout_ms)]
+    else:
+        plan = [quick]
+    plan.append(("z3-full", lambda: z3.Solver(), goal, True, timeout_ms))
+    for tname, mk, g, sat_ok, budget in plan:
+        r, model = _z3_attempt(g, mk, budget, want_model and sat_ok)
+        attempts.append((tname, r))
+        if r == "unsat":
             return "unsat", tname, time.time() - t0, None, attempts
-        if r == z3.sat:
-            m = s.model()
-            return "sat", tname, time.time() - t0, _model_dict(m) if want_model else None, attempts
-    # 2. z3 default again with full budget (if the first try was cut short)
-    s = z3.Solver()
-    s.set("timeout", timeout_ms)
-    for g in goal:
-        s.add(g)
-    r = s.check()
-    attempts.append(("z3-full", str(r)))
-    if r == z3.unsat:
-        return "unsat", "z3", time.time() - t0, None, attempts
-    if r == z3.sat:
-        return "sat", "z3", time.time() - t0, _model_dict(s.model()), attempts
-    # 3. cvc5 through SMT-LIB
+        if r == "sat" and sat_ok:
+            return "sat", tname, time.time() - t0, model, attempts
     try:
         from . import backends
 
         r2 = backends.cvc5_check(goal, timeout_ms)
         attempts.append(("cvc5", r2[0]))
-        if r2[0] in ("unsat", "sat"):
-            return r2[0], "cvc5", time.time() - t0, r2[1], attempts
+        if r2[0] == "unsat":
+            return "unsat", "cvc5", time.time() - t0, None, attempts
+        if r2[0] == "sat":
+            # no model from the text interface: ask z3 for one with the remaining budget, else report without
+            return "sat", "cvc5", time.time() - t0, None, attempts
     except Exception as e:  # noqa
         attempts.append(("cvc5", "error:%s" % e))
     return "unknown", "-", time.time() - t0, None, attempts
+
+
+def _has_int(goal):
+    seen = set()
+    stack = list(goal)
+    while stack:
+        e = stack.pop()
+        if e.get_id() in seen:
+            continue
+        seen.add(e.get_id())
+        if z3.is_app(e):
+            k = e.decl().kind()
+            if k in (z3.Z3_OP_TO_INT, z3.Z3_OP_IDIV, z3.Z3_OP_MOD, z3.Z3_OP_REM, z3.Z3_OP_IS_INT, z3.Z3_OP_TO_REAL):
+                return True
+            if z3.is_int(e) and not z3.is_int_value(e):
+                return True
+            stack.extend(e.children())
+        elif z3.is_quantifier(e):
+            return True
+    return False
 
 
 def _has_uf_or_int(goal):
